@@ -20,6 +20,11 @@ def numbers(tier):
             except OverflowError: continue
             if math.isinf(x) or x == 0: continue
             yield x; yield -x
+    # every decimal exponent around the notation boundaries (1e-7 .. 1e21), mantissas of 1 to 17 digits: the band where padding and notation decisions are made
+    for d in (1, 9, 15, 25, 99, 101, 125, 999, 1001, 99999, 123456, 1234567890123456, 12345678901234567, 99999999999999999):
+        for e in range(-28, 26):
+            x = float(f'{d}e{e}')
+            yield x; yield -x
     for k in range(-1074, 1024):
         x = 2.0 ** k
         for y in (x, math.nextafter(x, 0), math.nextafter(x, math.inf)):
